@@ -13,7 +13,8 @@ EXPLANATION = ("Decides the premises from which the property follows for every s
                "record, the receiver moved into exactly one spawned closure and never cloned, each data message written by one call; R03.4 pooled "
                "buffers are cleared immediately before being pushed to the pool; R03.5 inventory of global mutable state; R03.6 in the buffered stdout/stderr mode every record is written into the one BufWriter reached through its Mutex guard (a second handle to the stream or a print macro would let a record overtake the thread's buffered ones)."
                " R03.7 (shared with R01.4): at a rotation the writer is swapped - the old BufWriter dropped, hence flushed - before the cleanup may compress or remove the closed file."
-               " R03.8 every file-system effect (rename, remove, open, create, symlink, directory scan) on a call chain from a public operation of FileLogWriter executes with the state lock must-held - one critical section per operation; only work handed to the background cleanup thread runs outside.")
+               " R03.8 every file-system effect (rename, remove, open, create, symlink, directory scan) on a call chain from a public operation of FileLogWriter executes with the state lock must-held - one critical section per operation; only work handed to the background cleanup thread runs outside."
+               " R03.9 (shared with R13.3): every stderr / stdout duplicate of a record is one atomic emission (write_buffered or a print macro), never several writes on an unlocked handle.")
 ASSUMPTIONS = ["Mutex/RwLock give mutual exclusion, Stderr/Stdout::write_all holds the stream lock for the whole call (std)",
                "crossbeam unbounded channels are FIFO per sender", "write(2) on the same file description is not interleaved by the OS within one write_all of a BufWriter flush (not decided)"]
 NOT_DECIDED = ["atomicity of write(2)", "fairness", "interleaving of different sinks (file vs duplicate)"]
@@ -73,6 +74,12 @@ def fs_effects_under_state_lock(R, ctx, rule='R03.8'):
 
 def run(R, ctx):
     f, cg = ctx.f, ctx.cg
+    # lines stay intact on the std streams too: each duplicate of a record is emitted by exactly ONE call that is atomic on the stream (write_buffered: text and
+    # line ending in one write_all; the print macros) - two write_all calls on an unlocked stderr()/stdout() handle can be torn apart by another thread
+    # (duplication tables shared with R13.3: a duplicate that is not emitted through one of the atomic forms is not counted as an emission)
+    R.rule('R03.9', 'each stderr/stdout duplicate is one atomic emission (duplication tables shared with R13.3)')
+    import c13 as _c13d
+    _c13d.duplication(Relabel(R, {'R13.3': 'R03.9'}), ctx)
     R.rule('R03.8', 'MUST-HOLD(state lock, every file-system effect on the chains from FileLogWriter\'s public operations)')
     fs_effects_under_state_lock(R, ctx)
     R.rule('R03.1', 'TYPE-LEVEL: forbid(unsafe_code), no static mut')
